@@ -127,6 +127,33 @@ def settle_translation(res):
     subset), the reason is recorded, and the checks of the properties it serves run their thorough generators.  A failing
     equality is therefore never reported by itself - a semantic change shows up in the correspondence / oracle."""
     unproved = []
+    # run-time memo (not committed, not evidence): for THIS exact text of Generated/Codec.lean and of the proof files the set of
+    # functions whose equality did not check last time - so that the twenty checks of one tree do not each spend minutes on a
+    # proof attempt that is known to fail for this text.  A stale or missing memo only costs time: the loop below still decides.
+    import hashlib
+    memo_path = os.path.join(LEAN, ".lake", "translation_memo.json")
+
+    def text_key():
+        h = hashlib.sha256()
+        for f in ("Msmart/Generated/Codec.lean", "Msmart/Lemmas/CodecEq.lean", "Msmart/Lemmas/CodecEqLan.lean", "Msmart/Py/Ops.lean"):
+            try:
+                h.update(open(os.path.join(LEAN, f), "rb").read())
+            except OSError:
+                pass
+        return h.hexdigest()
+    try:
+        memo = json.load(open(memo_path))
+    except Exception:
+        memo = {}
+    key0 = text_key()
+    if memo.get(key0) and not os.environ.get("PYTRANS_UNPROVED"):
+        unproved = sorted(memo[key0])
+        env = dict(os.environ, PYTRANS_UNPROVED=",".join(unproved))
+        rc2, out2 = sh(["/venv/bin/python", os.path.join(HERE, "extract.py")], cwd=VERIF, timeout=300, env=env)
+        try:
+            res["generated"] = json.loads(out2.strip().split("\n")[-1])
+        except Exception:
+            pass
     for attempt in range(3):
         rc, out = sh(["lake", "build", "Msmart.Lemmas.CodecEqLan"], cwd=LEAN, timeout=1800)
         if rc == 0:
@@ -140,6 +167,13 @@ def settle_translation(res):
         try:
             res["generated"] = json.loads(out2.strip().split("\n")[-1])
         except Exception:
+            pass
+    if unproved and len(memo) < 200:
+        try:
+            memo[key0] = unproved
+            os.makedirs(os.path.dirname(memo_path), exist_ok=True)
+            json.dump(memo, open(memo_path, "w"))
+        except OSError:
             pass
     res["translation_unproved"] = unproved
     return unproved
